@@ -298,6 +298,18 @@ func extractC09(repo string) (string, error) {
 			}
 		}
 	}
+	if os.Getenv("C09_DEBUG") != "" {
+		for i := range allFns {
+			f := &allFns[i]
+			if strings.HasSuffix(f.name, os.Getenv("C09_DEBUG")) {
+				for callee, cnt := range f.calls {
+					if bareTotal[callee] > 0 {
+						fmt.Fprintln(os.Stderr, "DEBUG", f.name, "->", callee, cnt, bareTotal[callee])
+					}
+				}
+			}
+		}
+	}
 	var multi []string
 	for name, t := range total {
 		if t >= 2 {
